@@ -1141,11 +1141,20 @@ func (root *Root) AddEvent(id string, event interface{}) (cnt int, err error) {
 }
 
 func (root *Root) assureSchema() {
+	implicit := false
 	if root.schema == nil {
 		root.schema = &Schema{Object: Object{fields: fieldList{dict: map[string]*FieldDef{}}}}
+		implicit = true
+	} else if root.types.get(root.schema.Name()) != root.schema {
+		// Not declared with a schema block but made up here on an earlier
+		// load. A Query, Mutation or Subscription type may have been added
+		// since then.
+		implicit = true
+	}
+	if implicit {
 		for _, cap := range []string{"Query", "Mutation", "Subscription"} {
-			if t := root.types.get(cap); t != nil {
-				name := strings.ToLower(cap)
+			name := strings.ToLower(cap)
+			if t := root.types.get(cap); t != nil && root.schema.fields.get(name) == nil {
 				_ = root.schema.fields.add(&FieldDef{Base: Base{N: name}, Type: t})
 			}
 		}
